@@ -568,6 +568,7 @@ func (d *Driver) RunFamily(fam string, runs int) {
 			scn.Name = "close"
 			scn.CloseLast = false
 			scn.Opts.Path = "FS"
+			scn.Opts.IntroGates = r.Intn(2) == 0
 			if r.Intn(2) == 0 {
 				// the persister paces itself against the merger (its catch-up wait loop)
 				scn.Opts.NapUnderNumFiles = 1 + r.Intn(3)
